@@ -315,3 +315,66 @@ for key, file in (("SequentialEvaluator", ESEQ),):
         modifies=["self.count", "problem.ff.fn.ncalls", "all:dict", "all:field:phenotype"],
         props=["C13"],
     )
+
+# ---- multi-objective problem -------------------------------------------------------------------------
+R.cls("VecFn", fields={"ncalls": "int"})
+R.cls("AggFn", fields={"is_default": "bool", "owner": "MultiObjectiveProblem"})
+R.cls("CritFn", fields={})
+R.cls("MFFTable", fields={"fn": "VecFn", "aggregate": "AggFn?", "criterion": "CritFn?"})
+R.cls("MultiObjectiveProblem", bases=["Problem"], fields={"mff": "MFFTable", "n_objectives": "int", "initialized": "bool"}, file=PRB)
+R.classes["MultiObjectiveProblem"].fields["ff"] = "MFFTable"
+R.contract("MFFTable.__getitem__:ff", params=dict(self="MFFTable"), returns="VecFn", ensures={"e": "same(result, self.fn)"}, allocates=False)
+R.contract("MFFTable.__getitem__:aggregate_fitness", params=dict(self="MFFTable"), returns="AggFn?", ensures={"e": "same(result, self.aggregate)"}, allocates=False)
+R.contract("MFFTable.__getitem__:best_individual", params=dict(self="MFFTable"), returns="CritFn?", ensures={"e": "same(result, self.criterion)"}, allocates=False)
+R.contract(
+    "VecFn.__call__",
+    params=dict(self="VecFn", phenotype="Phenotype"),
+    returns="list[float]",
+    ensures={"counted": "self.ncalls == old(self.ncalls) + 1", "at_least_one_component": "len(result) >= 1"},
+    modifies=["self.ncalls"],
+    fresh_result=True,
+    note="user multi-objective fitness function; ghost invocation counter",
+)
+R.contract(
+    "AggFn.__call__",
+    params=dict(self="AggFn", components="list[float]"),
+    returns="float",
+    ensures={"default_is_signed_sum": "implies(self.is_default, result == ssum(components, self.owner.minimize, len(components)))"},
+    allocates=False,
+    note="aggregate over the computed components; the default one is verified as MultiObjectiveProblem.__init__.<locals>.default_single_objective_merge",
+)
+R.contract("CritFn.__call__", params=dict(self="CritFn", phenotype="Phenotype"), returns="float", allocates=False,
+           note="user-supplied best-individual criterion (takes the phenotype)")
+R.contract(
+    "MultiObjectiveProblem.evaluate",
+    file=PRB,
+    params=dict(self="MultiObjectiveProblem", phenotype="Phenotype"),
+    returns="Fitness",
+    requires={
+        "initialised": "self.initialized",
+        "some_aggregate": "self.ff.aggregate is not None or self.ff.criterion is not None",
+        "default_wired": "implies(self.ff.aggregate is not None and self.ff.aggregate.is_default, same(self.ff.aggregate.owner, self))",
+    },
+    ensures={
+        "fresh": "fresh(result) and fresh(result.fitness_components)",
+        "one_invocation": "self.ff.fn.ncalls == old(self.ff.fn.ncalls) + 1",
+        "components_nonempty": "len(result.fitness_components) >= 1",
+        "default_aggregate": "implies(self.ff.aggregate is not None and self.ff.aggregate.is_default, "
+        "result.maximizing_aggregate == ssum(result.fitness_components, self.minimize, len(result.fitness_components)))",
+    },
+    modifies=["self.ff.fn.ncalls"],
+    fresh_result=True,
+    props=["C13"],
+    note="list form of `minimize` (initialised problem); the lazily initialised bool form is covered by the bounded layer only",
+)
+R.contract(
+    "MultiObjectiveProblem.default_merge",
+    src="MultiObjectiveProblem.__init__.<locals>.default_single_objective_merge",
+    file=PRB,
+    params=dict(components="list[float]", self="MultiObjectiveProblem"),
+    returns="float",
+    requires={"one_direction_per_component": "len(self.minimize) == len(components)"},
+    ensures={"signed_sum": "result == ssum(components, self.minimize, len(components))"},
+    post_lemmas={"sum_is_signed_sum": ("j", "0", "len(components)", "psum(SUMARG0, j) == ssum(components, self.minimize, j)")},
+    props=["C13"],
+)
